@@ -124,6 +124,8 @@ fn main() {
     // D11: a deduction completes the table, the relator cycles through it were never scanned
     cases(&mut ctx, by_name("Z3"), &[vec![1, 1]], "regress");
     cases(&mut ctx, by_name("T233"), &[vec![1, 2, -1, -1, 2]], "regress");
+    // D12: a coincidence kills row 0, compact() numbered the base coset 1
+    cases(&mut ctx, by_name("T232"), &[vec![-1, -2, 1, 1, -2]], "regress");
 
     for (gi, g) in groups.iter().enumerate() {
         if !th && !g.quick {
